@@ -264,3 +264,58 @@ func TestVerifReplay(t *testing.T) {
 	t.Logf("NOT-REPRODUCED")
 }
 `
+
+func init() { replayDrivers["copy-overlap"] = replayCopyOverlap }
+
+// replayCopyOverlap: Copy("d/f", "d") resolves its destination to the source itself; Copy(a, a/b) copies a directory
+// into itself (run with a deadline: it does not terminate on the in-memory backend).
+func replayCopyOverlap(ex *Exec, o *Obligation) (string, string, string, bool, error) {
+	src := `package filesystem
+
+import (
+	"context"
+	"testing"
+	"time"
+)
+
+func TestVerifReplay(t *testing.T) {
+	for _, fsType := range FileSystemTypes {
+		fs := NewFs(fsType)
+		root, err := fs.TempDirInTempDir("verif-copy-")
+		if err != nil {
+			t.Fatal(err)
+		}
+		defer func() { _ = fs.Rm(root) }()
+		_ = fs.MkDir(root + "/d")
+		_ = fs.WriteFile(root+"/d/f", []byte("precious content"), 0o644)
+		err = fs.Copy(root+"/d/f", root+"/d")
+		content, _ := fs.ReadFile(root + "/d/f")
+		if string(content) != "precious content" {
+			t.Fatalf("REPRODUCED (%v): Copy(\"d/f\", \"d\") changed its source: content is now %q (returned %v)", fsType, content, err)
+		}
+		_ = fs.MkDir(root + "/a/sub")
+		_ = fs.WriteFile(root+"/a/sub/x", []byte("x"), 0o644)
+		ctx, cancel := context.WithTimeout(context.Background(), 3*time.Second)
+		done := make(chan error, 1)
+		go func() { done <- fs.CopyWithContext(ctx, root+"/a", root+"/a/b") }()
+		select {
+		case err = <-done:
+			cancel()
+			if err != nil {
+				t.Fatalf("REPRODUCED (%v): Copy(\"a\", \"a/b\") (a directory into itself) recursed until it failed: %.200v", fsType, err)
+			}
+			var tree []string
+			_ = fs.ListDirTree(root+"/a", &tree)
+			if len(tree) > 50 {
+				t.Fatalf("REPRODUCED (%v): Copy(\"a\", \"a/b\") (a directory into itself) created %d entries", fsType, len(tree))
+			}
+		case <-time.After(10 * time.Second):
+			cancel()
+			t.Fatalf("REPRODUCED (%v): Copy(\"a\", \"a/b\") does not terminate", fsType)
+		}
+	}
+	t.Logf("NOT-REPRODUCED")
+}
+`
+	return "filesystem", src, "^TestVerifReplay$", false, nil
+}
